@@ -166,10 +166,11 @@ def refdrill(ids):
                 keys = [ln.split('] ')[0].split('[')[-1] for ln in out.splitlines() if ': [R' in ln]
                 broken = [ln for ln in out.splitlines() if ln.startswith('ANALYSIS-BROKEN')]
                 return p, {'exit': rc, 'reported': sorted(set(keys)), 'broken': broken[:1]}
-            p0, r0 = one(claimed[0])
-            row[p0] = r0
+            first = [p for p in ('C13', 'C14', 'C01') if p in claimed]       # generated sources and the shared units are built once, sequentially
+            for p in first:
+                row[p] = one(p)[1]
             with ThreadPoolExecutor(max_workers=6) as ex:
-                for p, r in ex.map(one, claimed[1:]):
+                for p, r in ex.map(one, [p for p in claimed if p not in first]):
                     row[p] = r
         finally:
             sh('git checkout -- .', cwd=R)
